@@ -1207,6 +1207,223 @@ fn bound(ty: &str, label: &str, k: u64) -> Option<Result<Vec<u8>, ()>> {
     })
 }
 
+
+// ------------------------------------------------------------------------------------------------
+// stream 2c: PROVENANCE REUSE.  A value is equal for the library whatever bytes it was decoded from, but it may remember
+// an encoding hint (set tag, definite/indefinite, legacy/map output, array/map redeemers, aux-data era).  Here a collection
+// is first DECODED from one of the wire spellings the decoder accepts, then moved through typed constructors / setters into
+// every OTHER container that takes the type, and the container's bytes are judged.  Spellings that the CDDL itself allows
+// only (PlutusData keeps its original bytes by design, so it is only offered conformant spellings).
+fn cbor_bytes(b: &[u8]) -> Vec<u8> { let mut v = if b.len() < 24 { vec![0x40 + b.len() as u8] } else if b.len() < 256 { vec![0x58, b.len() as u8] } else { vec![0x59, (b.len() >> 8) as u8, b.len() as u8] }; v.extend_from_slice(b); v }
+fn strip_set_tag(b: &[u8]) -> Vec<u8> { if b.len() >= 3 && b[0] == 0xd9 && b[1] == 0x01 && b[2] == 0x02 { b[3..].to_vec() } else { b.to_vec() } }
+fn with_set_tag(b: &[u8]) -> Vec<u8> { let mut v = vec![0xd9, 0x01, 0x02]; v.extend_from_slice(&strip_set_tag(b)); v }
+/// definite array / map at the top -> indefinite with break
+fn to_indefinite(b: &[u8]) -> Vec<u8> {
+    if b.is_empty() { return b.to_vec(); }
+    let (m, ai) = (b[0] >> 5, b[0] & 31);
+    if m != 4 && m != 5 { return b.to_vec(); }
+    let skip = match ai { 0..=23 => 1, 24 => 2, 25 => 3, 26 => 5, 27 => 9, _ => return b.to_vec() };
+    let mut v = vec![(m << 5) | 31]; v.extend_from_slice(&b[skip..]); v.push(0xff); v
+}
+/// the first head written one width class wider than necessary
+fn widen_head(b: &[u8]) -> Vec<u8> {
+    if b.is_empty() { return b.to_vec(); }
+    let (m, ai) = (b[0] >> 5, b[0] & 31);
+    let mut v = match ai { 0..=23 => vec![(m << 5) | 24, ai], 24 => vec![(m << 5) | 25, 0, b[1]], _ => return b.to_vec() };
+    v.extend_from_slice(&b[if ai < 24 { 1 } else { 2 }..]); v
+}
+/// the spellings of a SET (canonical bytes = tag 258 + definite array): 8 variants
+fn set_spelling(canon: &[u8], v: u64) -> Vec<u8> {
+    let arr = strip_set_tag(canon);
+    match v % 8 {
+        0 => with_set_tag(&arr), 1 => arr,
+        2 => with_set_tag(&to_indefinite(&arr)), 3 => to_indefinite(&arr),
+        4 => with_set_tag(&widen_head(&arr)), 5 => widen_head(&arr),
+        6 => { let mut t = vec![0xda, 0, 0, 0x01, 0x02]; t.extend_from_slice(&arr); t }      // the tag itself non-minimal
+        _ => with_set_tag(&widen_head(&widen_head(&arr))),
+    }
+}
+/// the spellings of a plain ARRAY / MAP collection
+fn arr_spelling(canon: &[u8], v: u64) -> Vec<u8> {
+    match v % 4 { 0 => canon.to_vec(), 1 => to_indefinite(canon), 2 => widen_head(canon), _ => with_set_tag(canon) }
+}
+fn prov_labels() -> Vec<(&'static str, &'static str)> {
+    vec![
+        ("NativeScript", "prov_scripts_ws_into_all"), ("NativeScript", "prov_scripts_ws_into_any"), ("NativeScript", "prov_scripts_ws_into_n_of_k"),
+        ("NativeScript", "prov_scripts_plain_into_all"), ("NativeScript", "prov_scripts_aux_into_any"),
+        ("AuxiliaryData", "prov_scripts_ws_into_aux"), ("AuxiliaryData", "prov_scripts_plain_into_aux"), ("AuxiliaryData", "prov_scripts_aux_into_aux"),
+        ("AuxiliaryData", "prov_metadata_into_aux"), ("AuxiliaryData", "prov_plutus_scripts_ws_into_aux"), ("AuxiliaryData", "prov_aux_era_switch"),
+        ("TransactionWitnessSet", "prov_scripts_plain_into_ws"), ("TransactionWitnessSet", "prov_scripts_aux_into_ws"),
+        ("TransactionWitnessSet", "prov_ws_fields_into_ws"), ("TransactionWitnessSet", "prov_redeemers_into_ws"),
+        ("TransactionWitnessSet", "prov_plutus_list_into_ws"), ("TransactionWitnessSet", "prov_plutus_scripts_aux_into_ws"),
+        ("NativeScripts", "prov_scripts_ws_standalone"),
+        ("Certificate", "prov_keyhashes_into_pool_owners"), ("TransactionBody", "prov_keyhashes_into_required_signers"),
+        ("Ed25519KeyHashes", "prov_keyhashes_standalone"),
+        ("GovernanceAction", "prov_credentials_into_committee"), ("Credentials", "prov_credentials_standalone"),
+        ("Certificate", "prov_credential_into_certs"), ("VotingProposal", "prov_action_into_proposal"),
+        ("TransactionBody", "prov_inputs_into_body"), ("TransactionBody", "prov_certs_into_body"), ("TransactionBody", "prov_proposals_into_body"),
+        ("TransactionBody", "prov_outputs_into_body"), ("TransactionBody", "prov_output_into_collateral_return"),
+        ("TransactionOutputs", "prov_outputs_list"), ("TransactionOutput", "prov_output_forms"),
+        ("PlutusData", "prov_list_into_data"), ("PlutusData", "prov_list_into_constr"), ("PlutusData", "prov_list_ws_into_constr"),
+        ("Redeemers", "prov_data_into_redeemer"), ("Redeemers", "prov_redeemers_forms"),
+        ("Transaction", "prov_parts_into_transaction"),
+    ]
+}
+fn dec<T, E>(r: Result<T, E>) -> Result<T, ()> { r.map_err(|_| ()) }
+/// None = unknown label; Some(Err) = the decoder refused that spelling; Some(Ok(bytes)) = the container's bytes
+fn prov(ty: &str, label: &str, k: u64) -> Option<Result<Vec<u8>, ()>> {
+    let mut g = G::new(fnv(&format!("{}/{}", ty, label)) ^ (k / 8));
+    let g = &mut g;
+    let v = k % 8;
+    // ---- sources ----
+    // native scripts decoded from a witness set in spelling v (the field is a set there)
+    let scripts_from_ws = |g: &mut G, v: u64| -> Result<NativeScripts, ()> {
+        let fresh = g.native_scripts(1, 3, 1);
+        let mut ws = TransactionWitnessSet::new(); ws.set_native_scripts(&fresh);
+        let b = ws.to_bytes();                                   // a1 01 d9 0102 8n ...
+        let mut bytes = vec![0xa1, 0x01]; bytes.extend_from_slice(&set_spelling(&b[2..], v));
+        dec(TransactionWitnessSet::from_bytes(bytes))?.native_scripts().ok_or(())
+    };
+    let scripts_plain = |g: &mut G, v: u64| -> Result<NativeScripts, ()> { let fresh = g.native_scripts(1, 3, 1); dec(NativeScripts::from_bytes(arr_spelling(&fresh.to_bytes(), v))) };
+    // from auxiliary data: Shelley-MA array form or Alonzo map form
+    let scripts_from_aux = |g: &mut G, v: u64| -> Result<NativeScripts, ()> {
+        let fresh = g.native_scripts(1, 3, 1);
+        let mut a = AuxiliaryData::new(); a.set_native_scripts(&fresh);
+        if v % 2 == 0 { a.set_metadata(&g.general_metadata(0, 2)); } else { a.set_prefer_alonzo_format(true); }
+        dec(AuxiliaryData::from_bytes(a.to_bytes()))?.native_scripts().ok_or(())
+    };
+    let keyhashes = |g: &mut G, v: u64| -> Result<Ed25519KeyHashes, ()> { let f = g.key_hashes(1, 3); dec(Ed25519KeyHashes::from_bytes(set_spelling(&f.to_bytes(), v))) };
+    let credentials = |g: &mut G, v: u64| -> Result<Credentials, ()> { let f = g.credentials(1, 3); dec(Credentials::from_bytes(set_spelling(&f.to_bytes(), v))) };
+    let plutus_list = |g: &mut G, v: u64| -> Result<PlutusList, ()> {
+        let f = g.plutus_list(1, 3, 1); let c = f.to_bytes();           // indefinite by default when non-empty
+        let definite = { let mut l = PlutusList::new(); for i in 0..f.len() { l.add(&f.get(i)); } let mut d = vec![0x80 + f.len() as u8]; for i in 0..f.len() { d.extend_from_slice(&f.get(i).to_bytes()); } let _ = l; d };
+        dec(PlutusList::from_bytes(match v % 3 { 0 => c, 1 => definite, _ => with_set_tag(&c) }))
+    };
+    let anchor_hash = |g: &mut G| AnchorDataHash::from_bytes(g.bytes(32)).unwrap();
+    Some(match label {
+        "prov_scripts_ws_into_all" => scripts_from_ws(g, v).map(|s| NativeScript::new_script_all(&ScriptAll::new(&s)).to_bytes()),
+        "prov_scripts_ws_into_any" => scripts_from_ws(g, v).map(|s| NativeScript::new_script_any(&ScriptAny::new(&s)).to_bytes()),
+        "prov_scripts_ws_into_n_of_k" => scripts_from_ws(g, v).map(|s| NativeScript::new_script_n_of_k(&ScriptNOfK::new(1, &s)).to_bytes()),
+        "prov_scripts_plain_into_all" => scripts_plain(g, v).map(|s| NativeScript::new_script_all(&ScriptAll::new(&s)).to_bytes()),
+        "prov_scripts_aux_into_any" => scripts_from_aux(g, v).map(|s| NativeScript::new_script_any(&ScriptAny::new(&s)).to_bytes()),
+        "prov_scripts_ws_standalone" => scripts_from_ws(g, v).map(|s| s.to_bytes()),
+        "prov_scripts_ws_into_aux" | "prov_scripts_plain_into_aux" | "prov_scripts_aux_into_aux" => {
+            let s = match label { "prov_scripts_ws_into_aux" => scripts_from_ws(g, v), "prov_scripts_plain_into_aux" => scripts_plain(g, v), _ => scripts_from_aux(g, v) };
+            s.map(|s| { let mut a = AuxiliaryData::new(); a.set_native_scripts(&s);
+                        match (k / 8) % 3 { 0 => a.set_metadata(&g.general_metadata(0, 2)), 1 => a.set_prefer_alonzo_format(true), _ => a.set_plutus_scripts(&g.plutus_scripts(1, 2, &[1, 2, 3])) }
+                        a.to_bytes() })
+        }
+        "prov_metadata_into_aux" => {
+            let f = g.general_metadata(1, 3);
+            // decoded stand-alone (definite / indefinite / wide head) or out of an auxiliary data of either era
+            let m = match v % 5 { 0 | 1 | 2 => dec(GeneralTransactionMetadata::from_bytes(arr_spelling(&f.to_bytes(), v))),
+                                  3 => { let mut a = AuxiliaryData::new(); a.set_metadata(&f); dec(AuxiliaryData::from_bytes(a.to_bytes())).and_then(|a| a.metadata().ok_or(())) }
+                                  _ => { let mut a = AuxiliaryData::new(); a.set_metadata(&f); a.set_prefer_alonzo_format(true); dec(AuxiliaryData::from_bytes(a.to_bytes())).and_then(|a| a.metadata().ok_or(())) } };
+            m.map(|m| { let mut a = AuxiliaryData::new(); a.set_metadata(&m);
+                        match (k / 8) % 3 { 0 => {}, 1 => a.set_native_scripts(&g.native_scripts(0, 2, 1)), _ => a.set_prefer_alonzo_format(true) } a.to_bytes() })
+        }
+        "prov_plutus_scripts_ws_into_aux" | "prov_plutus_scripts_aux_into_ws" => {
+            let f = g.plutus_scripts(1, 3, &[1, 2, 3]);
+            if label == "prov_plutus_scripts_ws_into_aux" {
+                let mut ws = TransactionWitnessSet::new(); ws.set_plutus_scripts(&f);
+                dec(TransactionWitnessSet::from_bytes(ws.to_bytes())).and_then(|w| w.plutus_scripts().ok_or(()))
+                    .map(|p| { let mut a = AuxiliaryData::new(); a.set_plutus_scripts(&p); if v % 2 == 0 { a.set_metadata(&g.general_metadata(0, 2)); } a.to_bytes() })
+            } else {
+                let mut a = AuxiliaryData::new(); a.set_plutus_scripts(&f);
+                dec(AuxiliaryData::from_bytes(a.to_bytes())).and_then(|a| a.plutus_scripts().ok_or(()))
+                    .map(|p| { let mut ws = TransactionWitnessSet::new(); ws.set_plutus_scripts(&p); ws.to_bytes() })
+            }
+        }
+        "prov_aux_era_switch" => {
+            // an auxiliary data decoded in one era's form, then pushed to another form by a later setter
+            let mut a = AuxiliaryData::new(); a.set_metadata(&g.general_metadata(0, 2));
+            match v % 4 { 0 => {}, 1 => a.set_native_scripts(&g.native_scripts(0, 2, 1)), 2 => a.set_native_scripts(&NativeScripts::new()), _ => a.set_prefer_alonzo_format(true) }
+            dec(AuxiliaryData::from_bytes(a.to_bytes())).map(|mut d| {
+                match (k / 8) % 4 { 0 => d.set_prefer_alonzo_format(true), 1 => d.set_plutus_scripts(&g.plutus_scripts(1, 2, &[1, 2, 3])),
+                                    2 => d.set_native_scripts(&NativeScripts::new()), _ => d.set_native_scripts(&g.native_scripts(1, 2, 1)) }
+                d.to_bytes() })
+        }
+        "prov_scripts_plain_into_ws" => scripts_plain(g, v).map(|s| { let mut ws = TransactionWitnessSet::new(); ws.set_native_scripts(&s); ws.to_bytes() }),
+        "prov_scripts_aux_into_ws" => scripts_from_aux(g, v).map(|s| { let mut ws = TransactionWitnessSet::new(); ws.set_native_scripts(&s); ws.to_bytes() }),
+        "prov_ws_fields_into_ws" => {
+            // every set-typed witness field decoded in spelling v, moved into a fresh witness set
+            let (vk, bs) = (g.vkeywitnesses(1, 3), g.bootstrap_witnesses(1, 2));
+            dec(Vkeywitnesses::from_bytes(set_spelling(&vk.to_bytes(), v))).and_then(|vk| {
+                let bs = dec(BootstrapWitnesses::from_bytes(set_spelling(&bs.to_bytes(), v + 1)))?;
+                let ns = scripts_from_ws(g, v + 2)?;
+                let mut ws = TransactionWitnessSet::new(); ws.set_vkeys(&vk); ws.set_bootstraps(&bs); ws.set_native_scripts(&ns); Ok(ws.to_bytes()) })
+        }
+        "prov_redeemers_into_ws" | "prov_redeemers_forms" => {
+            let f = g.redeemers(1, 3);
+            // the array form is the concatenation of the redeemers, each an array [tag, index, data, ex_units]
+            let mut arr = vec![0x80 + f.len() as u8]; for i in 0..f.len() { arr.extend_from_slice(&f.get(i).to_bytes()); }
+            let bytes = match v % 5 { 0 => f.to_bytes(), 1 => arr, 2 => to_indefinite(&arr), 3 => to_indefinite(&f.to_bytes()), _ => widen_head(&f.to_bytes()) };
+            dec(Redeemers::from_bytes(bytes)).map(|r| if label == "prov_redeemers_forms" {
+                // rebuilt through the typed API: the form hint must not leak
+                let mut n = Redeemers::new(); for i in 0..r.len() { n.add(&r.get(i)); } n.to_bytes()
+            } else { let mut ws = TransactionWitnessSet::new(); ws.set_redeemers(&r); ws.to_bytes() })
+        }
+        "prov_plutus_list_into_ws" => plutus_list(g, v).map(|l| { let mut ws = TransactionWitnessSet::new(); ws.set_plutus_data(&l); ws.to_bytes() }),
+        "prov_keyhashes_into_pool_owners" => keyhashes(g, v).map(|o| {
+            let p = PoolParams::new(&g.kh(), &g.vrf(), &g.coin(), &g.coin(), &g.unit_interval(), &g.reward_any(), &o, &g.relays(0, 2), None);
+            Certificate::new_pool_registration(&PoolRegistration::new(&p)).to_bytes() }),
+        "prov_keyhashes_into_required_signers" => keyhashes(g, v).map(|o| { let mut b = g.body(0); b.set_required_signers(&o); b.to_bytes() }),
+        "prov_keyhashes_standalone" => keyhashes(g, v).map(|o| { let mut n = Ed25519KeyHashes::new(); for i in 0..o.len() { n.add(&o.get(i)); } if (k / 8) % 2 == 0 { o.to_bytes() } else { n.to_bytes() } }),
+        "prov_credentials_into_committee" => credentials(g, v).map(|rm| {
+            let mut c = Committee::new(&g.unit_interval()); for i in 0..rm.len() { if g.chance(1, 2) { c.add_member(&rm.get(i), g.u32e()); } }
+            GovernanceAction::new_new_committee_action(&UpdateCommitteeAction::new(&c, &rm)).to_bytes() }),
+        "prov_credentials_standalone" => credentials(g, v).map(|c| c.to_bytes()),
+        "prov_credential_into_certs" => {
+            let f = g.cred_any();
+            dec(Credential::from_bytes(if v % 2 == 0 { f.to_bytes() } else { to_indefinite(&f.to_bytes()) })).map(|c| match (k / 8) % 4 {
+                0 => Certificate::new_stake_registration(&StakeRegistration::new(&c)).to_bytes(),
+                1 => Certificate::new_vote_delegation(&VoteDelegation::new(&c, &g.drep_any())).to_bytes(),
+                2 => Certificate::new_committee_hot_auth(&CommitteeHotAuth::new(&c, &g.cred_any())).to_bytes(),
+                _ => Certificate::new_drep_update(&DRepUpdate::new_with_anchor(&c, &Anchor::new(&g.url(), &anchor_hash(g)))).to_bytes() })
+        }
+        "prov_action_into_proposal" => {
+            let kind = (k / 8) % 7; let a = g.gov_action(kind, v % 2);
+            dec(GovernanceAction::from_bytes(if v % 4 < 2 { a.to_bytes() } else { to_indefinite(&a.to_bytes()) }))
+                .map(|a| VotingProposal::new(&a, &g.anchor(), &g.reward_any(), &g.coin()).to_bytes())
+        }
+        "prov_inputs_into_body" => { let f = g.tx_ins(1, 3);
+            dec(TransactionInputs::from_bytes(set_spelling(&f.to_bytes(), v))).map(|i| {
+                let mut b = TransactionBody::new_tx_body(&i, &g.outputs(0, 2), &g.coin()); b.set_collateral(&i); b.set_reference_inputs(&i); b.to_bytes() }) }
+        "prov_certs_into_body" => { let f = g.certificates(1, 3);
+            dec(Certificates::from_bytes(set_spelling(&f.to_bytes(), v))).map(|c| { let mut b = g.body(0); b.set_certs(&c); b.to_bytes() }) }
+        "prov_proposals_into_body" => { let f = g.voting_proposals(1, 2);
+            dec(VotingProposals::from_bytes(set_spelling(&f.to_bytes(), v))).map(|c| { let mut b = g.body(0); b.set_voting_proposals(&c); b.to_bytes() }) }
+        "prov_output_forms" | "prov_outputs_into_body" | "prov_output_into_collateral_return" | "prov_outputs_list" => {
+            // an output decoded from the legacy array, the legacy array with datum hash, or the map form with only address and value
+            let kind = (k / 8) % 7; let o = g.output(kind); let canon = o.to_bytes();
+            let plain_map = { let mut m = vec![0xa2, 0x00]; m.extend_from_slice(&cbor_bytes(&o.address().to_bytes())); m.push(0x01); m.extend_from_slice(&o.amount().to_bytes()); m };
+            let bytes = match v % 5 { 0 => canon, 1 => to_indefinite(&canon), 2 => widen_head(&canon), 3 => plain_map, _ => to_indefinite(&plain_map) };
+            dec(TransactionOutput::from_bytes(bytes)).map(|o| match label {
+                "prov_output_forms" => o.to_bytes(),
+                "prov_outputs_list" => { let mut l = TransactionOutputs::new(); l.add(&o); l.add(&g.output(0)); l.to_bytes() }
+                "prov_output_into_collateral_return" => { let mut b = g.body(0); b.set_collateral(&g.tx_ins(1, 2)); b.set_collateral_return(&o); b.to_bytes() }
+                _ => { let mut l = TransactionOutputs::new(); l.add(&o); TransactionBody::new_tx_body(&g.tx_ins(1, 2), &l, &g.coin()).to_bytes() } })
+        }
+        "prov_list_into_data" => plutus_list(g, v).map(|l| PlutusData::new_list(&l).to_bytes()),
+        "prov_list_into_constr" => plutus_list(g, v).map(|l| PlutusData::new_constr_plutus_data(&ConstrPlutusData::new(&bn([0u64, 6, 7, 127, 128][((k / 8) % 5) as usize]), &l)).to_bytes()),
+        "prov_list_ws_into_constr" => {
+            let f = g.distinct_plutus_list(1, 3); let mut ws = TransactionWitnessSet::new(); ws.set_plutus_data(&f);
+            dec(TransactionWitnessSet::from_bytes(ws.to_bytes())).and_then(|w| w.plutus_data().ok_or(()))
+                .map(|l| if v % 2 == 0 { PlutusData::new_constr_plutus_data(&ConstrPlutusData::new(&bn(1), &l)).to_bytes() } else { PlutusData::new_list(&l).to_bytes() })
+        }
+        "prov_data_into_redeemer" => plutus_list(g, v).map(|l| { let d = PlutusData::new_list(&l); let mut r = Redeemers::new();
+            r.add(&Redeemer::new(&g.redeemer_tag(k), &bn(g.u32e() as u64), &d, &g.ex_units())); r.to_bytes() }),
+        "prov_parts_into_transaction" => {
+            // body, witness set and auxiliary data each decoded from their own bytes, then assembled
+            let (bm, wm, ak) = (g.r.next() & ALL_BODY, g.r.next() & ALL_WITS, g.below(7));
+            let b = g.body(bm); let w = g.witness_set(wm); let a = g.aux(ak);
+            dec(TransactionBody::from_bytes(b.to_bytes())).and_then(|b| { let w = dec(TransactionWitnessSet::from_bytes(w.to_bytes()))?;
+                let a = dec(AuxiliaryData::from_bytes(a.to_bytes()))?; Ok(Transaction::new(&b, &w, if v % 2 == 0 { Some(a) } else { None }).to_bytes()) })
+        }
+        _ => return None,
+    })
+}
+
 // ------------------------------------------------------------------------------------------------
 // stream 3: TransactionBuilder scenarios
 #[derive(Default)]
@@ -1778,6 +1995,10 @@ fn exec(toks: &[String]) -> String {
         Some("api") => {
             if toks.len() != 4 { return "harness-badcase".into(); }
             let k: u64 = match toks[3].parse() { Ok(k) => k, Err(_) => return "harness-badcase".into() };
+            if toks[2].starts_with("prov_") {
+                return match prov(&toks[1], &toks[2], k) {
+                    Some(Ok(b)) => format!("ok {}", hex_or_dash(&b)), Some(Err(())) => "rejected".to_string(), None => "skip unknown-label".to_string() };
+            }
             if toks[2].starts_with("bound_") {
                 return match bound(&toks[1], &toks[2], k) {
                     Some(Ok(b)) => format!("ok {}", hex_or_dash(&b)), Some(Err(())) => "rejected".to_string(), None => "skip unknown-label".to_string() };
@@ -1830,6 +2051,16 @@ fn gen(dir: &str) {
     for (ty, label) in bound_labels() {
         let mut ks: Vec<u64> = (0..(if thorough { 48u64 } else { 8 })).collect();
         ks.push(r.next());
+        for k in ks {
+            let case = format!("api {} {} {}", ty, label, k);
+            let res = run_line(&case);
+            out.emit(&case, &res);
+        }
+    }
+    // 2c. provenance reuse: the 8 source spellings of every label always (k % 8), the container variants by k / 8
+    for (ty, label) in prov_labels() {
+        let mut ks: Vec<u64> = (0..(if thorough { 96u64 } else { 16 })).collect();
+        ks.push(r.next() % 4096);
         for k in ks {
             let case = format!("api {} {} {}", ty, label, k);
             let res = run_line(&case);
